@@ -137,9 +137,47 @@ pub fn run(tier: Tier, seed: u64) -> i32 {
         both!(("InverseGaussian", format!("({v:e},1)")), |F| InverseGaussian::<F>::new(v as F, 1.0).ok());
     }
     for &(n, p) in &[(1000u64, 1e-20), (u64::MAX, 1e-300), (u64::MAX, 0.5), (1, 0.5), (0, 0.3)] { check(&mut cx, &format!("Binomial({n},{p:e})"), Binomial::new(n, p).ok(), |a, b| a == b); }
+    // Binomial over a grid that crosses every method switch (Constant / Binv / Btpe / Poisson limit, p > 0.5 flip) and
+    // contains the parameter sets with two equal modes ((n + 1) p an integer) and with n p an integer
+    for n in [1u64, 2, 9, 10, 19, 20, 39, 49, 74, 99, 100, 109, 199, 999, 1000] {
+        for k in 0..=100u32 {
+            let p = k as f64 / 100.0;
+            check(&mut cx, &format!("Binomial({n},{p})"), Binomial::new(n, p).ok(), |a, b| a == b);
+        }
+        for k in 1..=n.min(40) {
+            let p = k as f64 * ((n / 40).max(1)) as f64 / (n + 1) as f64;
+            check(&mut cx, &format!("Binomial({n},{k}*/(n+1))"), Binomial::new(n, p).ok(), |a, b| a == b);
+        }
+    }
     for &(n, p) in &[(20u64, 0.3), (20, 0.7), (100, 0.4), (100, 0.6), (1 << 62, 1e-19), (7, 0.0), (7, 1.0), (1 << 53, 0.5)] { check(&mut cx, &format!("Binomial({n},{p})"), Binomial::new(n, p).ok(), |a, b| a == b); }
     for &p in &[1.0, 0.9, 0.5, 0.01, 1e-12, 0.0] { check(&mut cx, &format!("Geometric({p})"), Geometric::new(p).ok(), |a, b| a == b); }
     for &(nn, kk, n) in &[(60u64, 30u64, 17u64), (500, 400, 30), (10100, 10000, 1000), (250, 200, 230), (1 << 40, 1 << 39, 1 << 20)] { check(&mut cx, &format!("Hypergeometric({nn},{kk},{n})"), Hypergeometric::new(nn, kk, n).ok(), |a, b| a == b); }
+    // exhaustive small Hypergeometric (every reflection K <-> N-K, n <-> N-n, equal and extreme parameters), and grids
+    // crossing the method switches of the other discrete and of the shape-driven continuous families
+    for nn in 0..=16u64 {
+        for kk in 0..=nn {
+            for n in 0..=nn {
+                check(&mut cx, &format!("Hypergeometric({nn},{kk},{n})"), Hypergeometric::new(nn, kk, n).ok(), |a, b| a == b);
+            }
+        }
+    }
+    for i in 0..=120u32 {
+        let l = 0.05 + i as f64 * 0.3325;
+        both!(("Poisson", format!("({l})")), |F| Poisson::<F>::new(l as F).ok());
+        let p = i as f64 / 120.0;
+        check(&mut cx, &format!("Geometric({p})"), Geometric::new(p).ok(), |a, b| a == b);
+    }
+    for i in 0..=24u32 {
+        let a = 0.125 * i as f64;
+        for j in 0..=6u32 {
+            let b = [0.25, 0.5, 1.0, 1.5, 2.0, 3.0, 8.0][j as usize];
+            both!(("Gamma", format!("({a},{b})")), |F| Gamma::<F>::new(a as F, b as F).ok());
+            both!(("Beta", format!("({a},{b})")), |F| Beta::<F>::new(a as F, b as F).ok());
+            both!(("FisherF", format!("({a},{b})")), |F| FisherF::<F>::new(a as F, b as F).ok());
+        }
+        both!(("ChiSquared", format!("({a})")), |F| ChiSquared::<F>::new(a as F).ok());
+        both!(("StudentT", format!("({a})")), |F| StudentT::<F>::new(a as F).ok());
+    }
     check::<_, f64>(&mut cx, "StandardNormal", Some(StandardNormal), |_, _| true);
     check::<_, f64>(&mut cx, "Exp1", Some(Exp1), |_, _| true);
     check::<_, u64>(&mut cx, "StandardGeometric", Some(StandardGeometric), |_, _| true);
